@@ -7,7 +7,7 @@ Mirrors (branch by branch) `pkg/multiterm/termscaler/scale.go`, `pkg/multiterm/t
 `pkg/color/coloring.go` (`Wrap`, `Write`, `HighlightSingleRune`, `StrLen`),
 `pkg/multiterm/termrenderers/{table,histoWriter,bargraph,datatable,heatmap,spark}.go`, the render callbacks of
 `cmd/{histo,bargraph,reduce}.go` and `pkg/multiterm/termformat/scaleformatter.go` as they are
-AFTER the repairs b2c2a9f, 7206d40, 0b7fa09, a20c03a, b1ca348, 9780d5d, 6408ebf, c54b92c, 73473fc, 7b183e0, writing into the
+AFTER the repairs b2c2a9f, 7206d40, 0b7fa09, a20c03a, b1ca348, 9780d5d, 6408ebf, c54b92c, 73473fc, 7b183e0, f0d0278, cde79bf, writing into the
 `VirtualTerm` model of C20.  (`termformat/expression.go` is in `C14Format.lean`.)
 
 * Every Go panic source is an explicit `.error` (index out of range, slice bounds, negative
@@ -126,6 +126,10 @@ def highlightSingleRune (env : Env) (word : Bytes) (runeIndex : Int) (base highl
 
 /-- `fmt.Sprintf("%-*s", width, s)` for `width ≥ 0`: pad on the right to `width` runes -/
 def padRight (s : Bytes) (width : Int) : Bytes := s ++ spaces (width - (decodeUtf8 s).length)
+
+/-- `padVisible(s, width)` (termrenderers, after f0d0278): blanks up to `width` VISIBLE characters (`color.StrLen`) – the unit
+the key columns of the histogram and the bar graph are measured in -/
+def padVis (env : Env) (s : Bytes) (width : Int) : Bytes := s ++ spaces (width - strLen env s)
 
 /-! ## Formatters (`termformat.Formatter`)
 
@@ -461,7 +465,7 @@ def pctText : Bytes := ascii "[P%]"
 /-- `HistoWriter.writeLine` -/
 def Histo.writeLine {α : Type} (A : Arith α) (env : Env) (h : Histo) (vt : VirtualTerm) (line : Int) (key : Bytes) (val : Int) :
     Res VirtualTerm := do
-  let s := wrap env cYellow (padRight key h.textSpacing) ++ ascii "    " ++ padRight (h.fmt.apply val 0 h.maxVal) 10
+  let s := wrap env cYellow (padVis env key h.textSpacing) ++ ascii "    " ++ padRight (h.fmt.apply val 0 h.maxVal) 10
   let s := if h.showPct ∧ h.total > 0 then s ++ [32] ++ wrap env cCyan pctText else s
   if h.showBar ∧ h.maxVal > 0 then
     let bar ← barWrite A env (scale A h.scaler val 0 h.maxVal) 50
@@ -554,7 +558,7 @@ def BarGraph.writeBarGrouped {α : Type} (A : Arith α) (env : Env) (g : BarGrap
     Res (BarGraph × VirtualTerm) := do
   let mlv := vals.foldl (fun m v => if v > m then v else m) g.maxLineVal
   let g := { g with maxLineVal := mlv }
-  let head := wrap env cYellow (padRight key g.maxKeyLength) ++ ascii "  "
+  let head := wrap env cYellow (padVis env key g.maxKeyLength) ++ ascii "  "
   let line := wrap64 (g.prefixLines + wrap64 (idx * g.subKeys.length))
   let maxRow := wrap64 (line + g.subKeys.length)
   let g := if maxRow > g.maxRows then { g with maxRows := maxRow } else g
@@ -572,7 +576,7 @@ def BarGraph.writeBarStacked (env : Env) (g : BarGraph) (vt : VirtualTerm) (idx 
   let total := sumWrap vals
   let drawn := sumPositive vals
   let g := if drawn > g.maxLineVal then { g with maxLineVal := drawn } else g
-  let head := wrap env cYellow (padRight key g.maxKeyLength) ++ ascii "  "
+  let head := wrap env cYellow (padVis env key g.maxKeyLength) ++ ascii "  "
   let line := wrap64 (idx + g.prefixLines)
   let g := if line + 1 > g.maxRows then { g with maxRows := line + 1 } else g
   let bar ← barWriteStacked env g.maxLineVal g.barSize vals
@@ -583,17 +587,19 @@ def BarGraph.writeBar {α : Type} (A : Arith α) (env : Env) (g : BarGraph) (vt 
     Res (BarGraph × VirtualTerm) :=
   if g.stacked then g.writeBarStacked env vt idx key vals else g.writeBarGrouped A env vt idx key vals
 
-/-- `BarGraph.WriteBar(idx, key, vals...)` -/
+/-- `BarGraph.WriteBar(idx, key, vals...)` (after cde79bf: a key that widens the key column re-draws every row, like a new maximum) -/
 def BarGraph.writeBarTop {α : Type} (A : Arith α) (env : Env) (g : BarGraph) (vt : VirtualTerm) (idx : Int) (key : Bytes) (vals : List Int) :
     Res (BarGraph × VirtualTerm) := do
   let klen := strLen env key
+  let widened := decide (klen > g.maxKeyLength)
   let g := if klen > g.maxKeyLength then { g with maxKeyLength := klen } else g
   let rows := g.rows ++ List.replicate (idx + 1 - g.rows.length).toNat (([] : Bytes), ([] : List Int))
   let rows ← setIdx rows idx (key, vals)
   let g := { g with rows := rows }
   let max := if g.stacked then sumPositive vals else maxi64 vals
-  if max > g.maxLineVal then
-    let g := { g with maxLineVal := max }
+  let raised := decide (max > g.maxLineVal)
+  let g := if max > g.maxLineVal then { g with maxLineVal := max } else g
+  if widened || raised then
     g.rows.zipIdx.foldlM (fun (st : BarGraph × VirtualTerm) (ri : (Bytes × List Int) × Nat) =>
       st.1.writeBar A env st.2 ri.2 ri.1.1 ri.1.2) (g, vt)
   else g.writeBar A env vt idx key vals
